@@ -437,230 +437,101 @@ example :
 
 /-! ### 4. garbage collection -/
 
-/-- FULL statement of the third sentence of C09: collecting versions older than `cut` never
-removes a key's newest version nor any version newer than `cut`. -/
-def trash_keeps_newest_full : Prop :=
-  ∀ (K : List Bytes) (db : DB) (cut : Nat) (k : Bytes) (i : Nat) (val : Bytes),
-    WF K db → k ∈ K → i < 2 ^ 63 → (getKey k i, val) ∈ db →
-    (cut < i ∨ ∀ j val', j < 2 ^ 63 → (getKey k j, val') ∈ db → j ≤ i) →
-    (getKey k i, val) ∈ trash db cut
+theorem cutOf_getKey (k : Bytes) (i : Nat) : cutOf (getKey k i) = dataPrefix ++ k := by
+  simp [cutOf, cutVersion_getKey]
 
-theorem sentinel_not_prefix (k : Bytes) (i : Nat) : sentinel.isPrefixOf (getKey k i) = false := by
-  simp [sentinel, getKey, dataPrefix, List.isPrefixOf]
+/-- EXACTLY what `Trash(cut)` removes from a well-formed store (after repo commit 3f54487): a record
+goes iff its version is at most the cut and the next greater record of the store is a record of
+the same key (same `cutVersion`).  Everything else remains. -/
+theorem trash_removes_iff (K : List Bytes) (db : DB) (cut : Nat) (e : Bytes × Bytes)
+    (hwf : WF K db) (he : e ∈ db) :
+    e ∉ trash db cut ↔
+      (∃ front s back, db = front ++ e :: s :: back ∧ cutVersion s.1 = cutVersion e.1) ∧
+      ∃ v, getVersion e.1 = some v ∧ v ≤ Int.ofNat cut := by
+  have hcs : ∀ a ∈ db, ∃ k i, a.1 = getKey k i := fun a ha => by
+    obtain ⟨k, _, i, _, h⟩ := hwf.2 a ha; exact ⟨k, i, h⟩
+  have hc : ∀ a ∈ db.reverse, (cutVersion a.1).isSome := by
+    intro a ha
+    obtain ⟨k, i, h⟩ := hcs a (List.mem_reverse.1 ha)
+    rw [h, cutVersion_getKey]; rfl
+  have hdel : e ∉ trash db cut ↔ e.1 ∈ trashDels db cut := by
+    unfold trash
+    simp only [List.mem_filter, he, true_and, Bool.not_eq_true', List.contains_eq_mem,
+      decide_eq_false_iff_not, Decidable.not_not]
+  rw [hdel]
+  unfold trashDels
+  rw [trash_fold_exact cut db.reverse sentinel [] hc e.1]
+  obtain ⟨ke, ie, hek⟩ := hcs e he
+  constructor
+  · rintro (h | ⟨l1, e', l2, hl, hk, hp, hv⟩)
+    · cases h
+    · have he' : e' ∈ db := List.mem_reverse.1 (by rw [hl]; simp)
+      have hee : e' = e := key_unique db hwf.1 e' e he' he hk
+      subst hee
+      refine ⟨?_, hv⟩
+      rcases snoc_cases l1 with h | ⟨l1', s, h⟩
+      · subst h
+        exfalso
+        simp only [prevCut, List.getLast?_nil] at hp
+        rw [hek, cutOf_getKey] at hp
+        simp [sentinel, dataPrefix] at hp
+      · subst h
+        have hdb : db = l2.reverse ++ e' :: s :: l1'.reverse := by
+          have := congrArg List.reverse hl
+          simpa using this
+        refine ⟨l2.reverse, s, l1'.reverse, hdb, ?_⟩
+        have hs : s ∈ db := by rw [hdb]; simp
+        obtain ⟨ks, is, hsk⟩ := hcs s hs
+        have hp' : cutOf e'.1 = cutOf s.1 := by
+          simpa [prevCut] using hp
+        rw [hsk, hek, cutOf_getKey, cutOf_getKey] at hp'
+        rw [hsk, hek, cutVersion_getKey, cutVersion_getKey, hp']
+  · rintro ⟨⟨front, s, back, hdb, hcut⟩, hv⟩
+    right
+    refine ⟨back.reverse ++ [s], e, front.reverse, by rw [hdb]; simp, rfl, ?_, hv⟩
+    have hs : s ∈ db := by rw [hdb]; simp
+    obtain ⟨ks, is, hsk⟩ := hcs s hs
+    simp only [prevCut, List.getLast?_append, List.getLast?_singleton, Option.some_or]
+    unfold cutOf
+    rw [hcut]
 
-/-- PARTIAL (added hypothesis: `PrefixFree K` — no key is a proper prefix of another key): `Trash`
-keeps the newest version of every key and every version above the cut. -/
-theorem trash_keeps_newest_partial (K : List Bytes) (db : DB) (cut : Nat) (k : Bytes) (i : Nat)
-    (val : Bytes) (hwf : WF K db) (hpf : PrefixFree K) (hk : k ∈ K) (hi : i < 2 ^ 63)
-    (hmem : (getKey k i, val) ∈ db)
+/-- "Collecting versions older than `cut` never removes a key's newest version nor any version
+newer than `cut`" — for EVERY well-formed store, no hypothesis on the key shapes any more. -/
+theorem trash_keeps_newest (K : List Bytes) (db : DB) (cut : Nat) (k : Bytes) (i : Nat) (val : Bytes)
+    (hwf : WF K db) (hi : i < 2 ^ 63) (hmem : (getKey k i, val) ∈ db)
     (hkeep : cut < i ∨ ∀ j val', j < 2 ^ 63 → (getKey k j, val') ∈ db → j ≤ i) :
     (getKey k i, val) ∈ trash db cut := by
-  unfold trash
-  apply List.mem_filter.2
-  refine ⟨hmem, ?_⟩
-  simp only [Bool.not_eq_true', List.contains_eq_mem, decide_eq_false_iff_not]
-  intro hdel
-  unfold trashDels at hdel
-  rcases trash_fold_inv cut db.reverse sentinel [] _ hdel with h | ⟨l1, e, l2, hl, hek, ⟨v, hv, hvle⟩, hpre⟩
-  · cases h
-  · -- the version of the deleted record is i ≤ cut
-    rw [getVersion_getKey k i hi] at hv
-    simp only [Option.some.injEq] at hv
-    subst hv
-    have hicut : i ≤ cut := by
-      simpa using hvle
-    rcases hpre with h | h | ⟨e', he', p, hp1, hp2⟩
-    · rw [sentinel_not_prefix] at h; cases h
-    · rw [sentinel_not_prefix] at h; cases h
-    · -- e' was visited before e: it is a record of the same key with a greater version
-      have hdb : db = l2.reverse ++ e :: l1.reverse := by
-        have := congrArg List.reverse hl
-        simpa using this
-      have he'db : e' ∈ db := by
-        rw [hdb]; simp [he']
-      obtain ⟨k', hk', j, hj, hkey'⟩ := hwf.2 e' he'db
-      rw [hkey', cutVersion_getKey] at hp1
-      simp only [Option.some.injEq] at hp1
-      subst hp1
-      have hpk : k' <+: k ++ ([dot] ++ pad20 i) := by
-        have h1 := List.isPrefixOf_iff_prefix.1 hp2
-        have h2 : getKey k i = dataPrefix ++ (k ++ ([dot] ++ pad20 i)) := by simp [getKey]
-        rw [h2] at h1
-        exact (List.prefix_append_right_inj _).1 h1
-      have hkk : k' = k := by
-        rcases List.prefix_or_prefix_of_prefix hpk (List.prefix_append k _) with h | h
-        · exact hpf k hk k' hk' h
-        · exact (hpf k' hk' k hk h).symm
-      subst hkk
-      -- order: e comes before e' in db
-      have hlt : blt e.1 e'.1 = true := by
-        have hs := hwf.1
-        rw [hdb] at hs
-        have h2 := (List.pairwise_append.1 hs).2.1
-        exact (List.pairwise_cons.1 h2).1 e' (by simp [he'])
-      rw [hek, hkey'] at hlt
-      have hji : i < j := by
-        have : ble (getKey k' j) (getKey k' i) = false := by simpa [blt] using hlt
-        have h3 := (ble_getKey k' j i hj hi)
-        by_cases hle : j ≤ i
-        · rw [h3.2 hle] at this; cases this
-        · omega
-      rcases hkeep with h | h
-      · omega
-      · have := h j e'.2 hj (by rw [← hkey']; exact he'db)
-        omega
+  apply Classical.byContradiction
+  intro hnot
+  obtain ⟨⟨front, s, back, hdb, hcut⟩, v, hv, hle⟩ := (trash_removes_iff K db cut _ hwf hmem).1 hnot
+  simp only at hv hcut
+  rw [getVersion_getKey k i hi] at hv
+  simp only [Option.some.injEq] at hv
+  subst hv
+  have hicut : i ≤ cut := by simpa using hle
+  have hs : s ∈ db := by rw [hdb]; simp
+  obtain ⟨k', _, j, hj, hsk⟩ := hwf.2 s hs
+  rw [hsk, cutVersion_getKey, cutVersion_getKey] at hcut
+  have hkk : k' = k := List.append_cancel_left (Option.some.inj hcut)
+  subst hkk
+  have hlt : blt (getKey k' i) (getKey k' j) = true := by
+    have hsd := hwf.1
+    rw [hdb] at hsd
+    have h2 := (List.pairwise_append.1 hsd).2.1
+    have := (List.pairwise_cons.1 h2).1 s (by simp)
+    rw [hsk] at this
+    exact this
+  have hji : i < j := by
+    have hb : ble (getKey k' j) (getKey k' i) = false := by simpa [blt] using hlt
+    by_cases hle' : j ≤ i
+    · rw [(ble_getKey k' j i hj hi).2 hle'] at hb; cases hb
+    · omega
+  rcases hkeep with h | h
+  · omega
+  · have := h j s.2 hj (by rw [← hsk]; exact hs)
+    omega
 
-/-- PARTIAL, sharper: the hypothesis is only `NoForeignCover db` — no record's data key extends the
-remembered prefix (`cutVersion`, the data key without ".<version>") of a GREATER record of a
-different key.  This is exactly what the loop of `Trash` relies on, and much weaker than
-`PrefixFree`: keys such as "a"/"ab"/"a0"/"a/" (extension byte above '.') never violate it; it
-fails for "a"/"a!" (S-C09b) and for "a"/"a.<20 digits of a version of a>". -/
-theorem trash_keeps_newest_nocover (K : List Bytes) (db : DB) (cut : Nat) (k : Bytes) (i : Nat)
-    (val : Bytes) (hwf : WF K db) (hnc : NoForeignCover db) (hi : i < 2 ^ 63)
-    (hmem : (getKey k i, val) ∈ db)
-    (hkeep : cut < i ∨ ∀ j val', j < 2 ^ 63 → (getKey k j, val') ∈ db → j ≤ i) :
-    (getKey k i, val) ∈ trash db cut := by
-  unfold trash
-  apply List.mem_filter.2
-  refine ⟨hmem, ?_⟩
-  simp only [Bool.not_eq_true', List.contains_eq_mem, decide_eq_false_iff_not]
-  intro hdel
-  unfold trashDels at hdel
-  rcases trash_fold_inv cut db.reverse sentinel [] _ hdel with h | ⟨l1, e, l2, hl, hek, ⟨v, hv, hvle⟩, hpre⟩
-  · cases h
-  · rw [getVersion_getKey k i hi] at hv
-    simp only [Option.some.injEq] at hv
-    subst hv
-    have hicut : i ≤ cut := by simpa using hvle
-    rcases hpre with h | h | ⟨e', he', p, hp1, hp2⟩
-    · rw [sentinel_not_prefix] at h; cases h
-    · rw [sentinel_not_prefix] at h; cases h
-    · have hdb : db = l2.reverse ++ e :: l1.reverse := by
-        have := congrArg List.reverse hl
-        simpa using this
-      have he'db : e' ∈ db := by rw [hdb]; simp [he']
-      have hedb : e ∈ db := by rw [hdb]; simp
-      have hlt : blt e.1 e'.1 = true := by
-        have hs := hwf.1
-        rw [hdb] at hs
-        have h2 := (List.pairwise_append.1 hs).2.1
-        exact (List.pairwise_cons.1 h2).1 e' (by simp [he'])
-      -- the covering record belongs to the same key
-      have hc := hnc e' he'db e hedb hlt
-      simp only [coverOK, hp1, hek, hp2, Bool.not_true, Bool.false_or, beq_iff_eq] at hc
-      obtain ⟨k', hk', j, hj, hkey'⟩ := hwf.2 e' he'db
-      rw [hkey', cutVersion_getKey] at hp1
-      rw [cutVersion_getKey] at hc
-      have hkk : k' = k := by
-        have h1 : dataPrefix ++ k' = dataPrefix ++ k := by
-          have a := Option.some.inj hp1
-          have b := Option.some.inj hc
-          rw [a, b]
-        exact List.append_cancel_left h1
-      subst hkk
-      rw [hek, hkey'] at hlt
-      have hji : i < j := by
-        have : ble (getKey k' j) (getKey k' i) = false := by simpa [blt] using hlt
-        have h3 := (ble_getKey k' j i hj hi)
-        by_cases hle : j ≤ i
-        · rw [h3.2 hle] at this; cases this
-        · omega
-      rcases hkeep with h | h
-      · omega
-      · have := h j e'.2 hj (by rw [← hkey']; exact he'db)
-        omega
-
-/-- the condition is also necessary at the top of the store: if the remembered prefix of the
-GREATEST record `x` is a prefix of the data key of a record `e`, then `Trash(cut)` treats `e` as an
-older version of `x`'s key and removes it whenever its version is at most the cut — whatever key
-`e` belongs to, newest version or not.  (S-C09b is the instance x = ("a", v), e = ("a!", v').) -/
-theorem trash_collects_covered_by_top (K : List Bytes) (front : DB) (x e : Bytes × Bytes) (cut : Nat)
-    (p : Bytes) (v : Int) (hwf : WF K (front ++ [x])) (he : e ∈ front)
-    (hp : cutVersion x.1 = some p) (hcov : p.isPrefixOf e.1 = true)
-    (hv : getVersion e.1 = some v) (hle : v ≤ Int.ofNat cut) :
-    e ∉ trash (front ++ [x]) cut := by
-  intro hmem
-  have hdel : e.1 ∈ trashDels (front ++ [x]) cut := by
-    unfold trashDels
-    rw [List.reverse_append, List.reverse_singleton, List.singleton_append, List.foldl_cons]
-    -- first step: x opens a new prefix (the sentinel is no prefix of a data key)
-    obtain ⟨kx, _, jx, _, hxk⟩ := hwf.2 x (by simp)
-    have hs : sentinel.isPrefixOf x.1 = false := by rw [hxk]; exact sentinel_not_prefix kx jx
-    have hstep : trashStep cut (sentinel, []) x = (p, []) := by
-      unfold trashStep
-      simp [hs, hp]
-    rw [hstep]
-    -- split the remaining records at e
-    obtain ⟨l1, l2, hsplit⟩ := List.append_of_mem (List.mem_reverse.2 he)
-    rw [hsplit, List.foldl_append, List.foldl_cons]
-    have hsorted := hwf.1
-    have hfront : front = l2.reverse ++ e :: l1.reverse := by
-      have := congrArg List.reverse hsplit
-      simpa using this
-    -- every record above e (and below x) extends p
-    have hall : ∀ a ∈ l1, p.isPrefixOf a.1 = true := by
-      intro a ha
-      apply List.isPrefixOf_iff_prefix.2
-      have hpx : p <+: x.1 := by
-        rw [hxk, cutVersion_getKey] at hp
-        rw [← Option.some.inj hp, hxk, getKey]
-        exact ⟨[dot] ++ pad20 jx, by simp⟩
-      have hs2 : Sorted (l2.reverse ++ e :: l1.reverse ++ [x]) := by rw [← hfront]; exact hsorted
-      have hpw := List.pairwise_append.1 hs2
-      have hax : blt a.1 x.1 = true := hpw.2.2 a (by simp [ha]) x (by simp)
-      have hea : blt e.1 a.1 = true := by
-        have h3 := (List.pairwise_append.1 hpw.1).2.1
-        exact (List.pairwise_cons.1 h3).1 a (by simp [ha])
-      exact prefix_interval p e.1 a.1 x.1 (List.isPrefixOf_iff_prefix.1 hcov) hpx (ble_of_blt hea) (ble_of_blt hax)
-    obtain ⟨h1, _, _⟩ := trash_fold_covered cut l1 p [] hall
-    have hst : l1.foldl (trashStep cut) (p, []) = (p, (l1.foldl (trashStep cut) (p, [])).2) :=
-      Prod.ext h1 rfl
-    rw [hst]
-    apply trash_fold_mono
-    have hse : trashStep cut (p, (l1.foldl (trashStep cut) (p, [])).2) e =
-        (p, e.1 :: (l1.foldl (trashStep cut) (p, [])).2) := by
-      unfold trashStep
-      simp only [hcov, Bool.not_true, Bool.false_eq_true, if_false, hv]
-      rw [if_pos hle]
-    rw [hse]
-    exact List.mem_cons_self
-  have := (List.mem_filter.1 hmem).2
-  simp only [Bool.not_eq_true', List.contains_eq_mem, decide_eq_false_iff_not] at this
-  exact this hdel
-
-/-- `PrefixFree` key sets give `NoForeignCover` stores: the earlier partial theorem is a corollary. -/
-theorem prefixFree_noForeignCover (K : List Bytes) (db : DB) (hwf : WF K db) (hpf : PrefixFree K) :
-    NoForeignCover db := by
-  intro x hx e he _
-  obtain ⟨kx, hkx, jx, _, hx'⟩ := hwf.2 x hx
-  obtain ⟨ke, hke, je, _, he'⟩ := hwf.2 e he
-  simp only [coverOK, hx', he', cutVersion_getKey, Bool.or_eq_true, Bool.not_eq_true', beq_iff_eq]
-  by_cases hp : (dataPrefix ++ kx).isPrefixOf (getKey ke je) = true
-  · right
-    have hpk : kx <+: ke ++ ([dot] ++ pad20 je) := by
-      have h1 := List.isPrefixOf_iff_prefix.1 hp
-      have h2 : getKey ke je = dataPrefix ++ (ke ++ ([dot] ++ pad20 je)) := by simp [getKey]
-      rw [h2] at h1
-      exact (List.prefix_append_right_inj _).1 h1
-    have hkk : kx = ke := by
-      rcases List.prefix_or_prefix_of_prefix hpk (List.prefix_append ke _) with h | h
-      · exact hpf ke hke kx hkx h
-      · exact (hpf kx hkx ke hke h).symm
-    rw [hkk]
-  · left
-    cases h : (dataPrefix ++ kx).isPrefixOf (getKey ke je) with
-    | false => rfl
-    | true => exact absurd h hp
-
-/-- the condition is really weaker: keys "a", "ab", "a0", "a/" are prefix-related, yet a store over
-them has no foreign cover (and `Trash` is right on it by the theorem above). -/
-example :
-    let db : DB := [(getKey [97] 0, [1]), (getKey [97] 2, [2]), (getKey [97, 47] 1, [3]),
-                    (getKey [97, 48] 1, [4]), (getKey [97, 98] 0, [5]), (getKey [97, 98] 3, [6])]
-    Sorted db ∧ ¬ PrefixFree [[97], [97, 47], [97, 48], [97, 98]] ∧ NoForeignCover db := by
-  decide
-
-/-- S-C09b witness store: keys "a" and "a!" written once, at version 1. -/
+/-- S-C09b store: keys "a" and "a!" written once, at version 1. -/
 def witnessB : DB := [(getKey [97, 33] 1, [120]), (getKey [97] 1, [121])]
 
 theorem witnessB_wf : WF [[97], [97, 33]] witnessB := by
@@ -671,36 +542,28 @@ theorem witnessB_wf : WF [[97], [97, 33]] witnessB := by
   · exact ⟨[97, 33], by simp, 1, by decide, rfl⟩
   · exact ⟨[97], by simp, 1, by decide, rfl⟩
 
-/-- REFUTED: the full statement is false of the model (and of the code: corpus/C09/s_c09b.ops):
-`Trash(5)` deletes the only version of "a!" as an "older version of a". -/
-theorem trash_keeps_newest_full_false : ¬ trash_keeps_newest_full := by
-  intro h
-  have := h [[97], [97, 33]] witnessB 5 [97, 33] 1 [120] witnessB_wf (by simp) (by decide)
-    (by decide) (Or.inr (by
-      intro j val' hj hm
-      simp only [witnessB, List.mem_cons, List.not_mem_nil, or_false, Prod.mk.injEq] at hm
-      rcases hm with ⟨h1, _⟩ | ⟨h1, _⟩
-      · exact Nat.le_of_eq (getKey_inj _ _ j 1 hj (by decide) h1).2
-      · have := (getKey_inj _ _ j 1 hj (by decide) h1).1
-        simp at this))
-  revert this
-  decide
-
-/-- the refuting store has a foreign cover (so the sharper theorem does not apply to it), and so
-has the second shape: key "a" at version 5 below key "a.00000000000000000005". -/
-example :
-    ¬ NoForeignCover witnessB ∧
-    ¬ NoForeignCover [(getKey [97] 5, [1]), (getKey ([97, 46] ++ pad20 5) 0, [2])] ∧
+/-- REGRESSION WITNESS (S-C09b, fixed by repo commit 3f54487): the loop with the former
+`HasPrefix` test removes the only version of "a!" as an "older version of a"; the loop as it is
+now keeps it.  corpus/C09/s_c09b.ops replays the store on the code. -/
+theorem old_trash_removes_newest :
+    (getKey [97, 33] 1, [120]) ∈ witnessB ∧
+    (getKey [97, 33] 1, [120]) ∉ trashOld witnessB 5 ∧
+    (getKey [97, 33] 1, [120]) ∈ trash witnessB 5 ∧
+    (getKey ([97, 46] ++ pad20 5) 0, [2]) ∈
+      trashOld [(getKey [97] 5, [1]), (getKey ([97, 46] ++ pad20 5) 0, [2])] 7 ∧
+    (getKey [97] 5, [1]) ∉ trashOld [(getKey [97] 5, [1]), (getKey ([97, 46] ++ pad20 5) 0, [2])] 7 ∧
     trash [(getKey [97] 5, [1]), (getKey ([97, 46] ++ pad20 5) 0, [2])] 7 =
-      [(getKey ([97, 46] ++ pad20 5) 0, [2])] := by
+      [(getKey [97] 5, [1]), (getKey ([97, 46] ++ pad20 5) 0, [2])] := by
   decide
 
-/-- non-vacuity of the partial theorem: prefix-free keys "a", "b!" with several versions; the
-collection at cut 1 really deletes something and keeps what it must. -/
+/-- non-vacuity: prefix-related keys "a", "a!", "ab" with several versions; the collection at cut 1
+removes exactly the version-0 and version-1 records of "a" (each is followed by a newer record of "a")
+and nothing else. -/
 example :
-    let K : List Bytes := [[97], [98, 33]]
-    let db : DB := [(getKey [97] 0, [1]), (getKey [97] 1, [2]), (getKey [97] 3, [3]), (getKey [98, 33] 0, [4])]
-    PrefixFree K ∧ Sorted db ∧ trash db 1 = [(getKey [97] 3, [3]), (getKey [98, 33] 0, [4])] := by
+    let db : DB := [(getKey [97, 33] 0, [9]), (getKey [97] 0, [1]), (getKey [97] 1, [2]), (getKey [97] 3, [3]),
+                    (getKey [97, 98] 0, [4])]
+    Sorted db ∧ trash db 1 =
+      [(getKey [97, 33] 0, [9]), (getKey [97] 3, [3]), (getKey [97, 98] 0, [4])] := by
   decide
 
 end C09
